@@ -5,6 +5,7 @@ ASSUMPTIONS = {
     "E2": "format(int, ''|'d'|'03d'|'02x'|'x') on a symbolic non-negative int computed by digit arithmetic",
     "E2b": "a harness container type carrying _vf_format_const renders as that constant in f-strings (socket address tuples inside the UnexpectedSource message; the message text is not the subject)",
     "E3": "`symbolic_int in b'...'` decided by equality against each member",
+    "E3b": "b'%c' % x on a symbolic int x is bytes([x]) (OverflowError outside 0..255), as CPython computes it in C",
     "E4": "bytes.isdigit / bytes.isalnum on symbolic bytes decided arithmetically; int(symbolic bytes) routed through CrossHair's symbolic int(str)",
     "E5": "dns.enum.IntEnum.make / IntFlag(value) on a symbolic int: real range check, then the int itself",
     "E12": "& | ^ on symbolic ints in [0, 2^64) encoded as div/mod by powers of two (constant operand) or 64-bit bit-vectors",
